@@ -154,7 +154,7 @@ def run_route(m, o, args, S):
 
 
 def text_of(evs):
-    return events.events_text(evs, tc.GridTable())
+    return events.events_text(evs, tc.PosTable())
 
 
 def run(ctx):
